@@ -9,7 +9,7 @@ import re
 import shutil
 import subprocess
 
-from ckl.errors import CklRuntimeError
+from ckl.errors import CklRuntimeError, CklSyntaxError
 from ckl.parser import parse_script
 from ckl.date import to_oa_date, to_date
 from ckl.values import (
@@ -3442,7 +3442,10 @@ class FuncRun(ValueFunc):
             raise CklRuntimeError(
                 ValueString("ERROR"), "File " + path + " not found", pos
             )
-        return self.interpreter.interpret(script, file)
+        try:
+            return self.interpreter.interpret(script, file)
+        except CklSyntaxError as e:
+            raise CklRuntimeError(ValueString("ERROR"), e.msg, e.pos or pos)
 
 
 class FuncS(ValueFunc):
